@@ -18,11 +18,13 @@ Ev == T[l]
 IsEv(e) == l <= Len(T) /\ Ev.e = e /\ l' = l + 1
 
 PP == [off |-> Ev.off, size |-> Ev.size, cap |-> Ev.cap, nrel |-> Ev.nrel, nfix |-> Ev.nfix]
-HasSlotsP == \E x \in slots' : x.sec = cur'
 FreeP(i) == \E x \in slots' : x.sec = cur' /\ i - 1 >= x.lo /\ i - 1 < x.hi
+(* the current section with placeholder bytes counted as 0 (the harness computes its checksum the same way) *)
+MaskedP == IF \E x \in slots' : x.sec = cur' THEN [i \in 1 .. Len(secs'[cur'].mem) |-> IF FreeP(i) THEN 0 ELSE secs'[cur'].mem[i]]
+           ELSE secs'[cur'].mem
 (* the whole current section after the call equals the model (what lies outside the window did not change) *)
 After == B(/\ (Has(Ev, "coh") => Ev.coh)     \* offset()/buffer_data()/buffer_capacity()/remaining_space() agree with the section's CodeBuffer
-           /\ (Has(Ev, "dig") => (HasSlotsP \/ Ev.dig = Digest(secs'[cur'].mem)))
+           /\ (Has(Ev, "dig") => Ev.dig = Digest(MaskedP))
            /\ (Has(Ev, "img") => /\ Len(Ev.img) = Len(secs'[cur'].mem)
                                  /\ \A i \in 1 .. Len(Ev.img) : FreeP(i) \/ Ev.img[i] = secs'[cur'].mem[i]))
 
